@@ -1095,6 +1095,28 @@ def nominal_seconds(rn, route) -> float:
     return sum(l.distance_km / _gt_speed(rn, l.link_id, l.speed_kmph) * 3600.0 for l in route if l.start != l.end)
 
 
+def initial_route(rn, a, sb, sim):
+    """the route a travelling activity had when it was entered from vehicle `a`'s position, rebuilt with the router
+    (whose own correctness is C13's subject); None when the target cannot be determined"""
+    from nrel.hive.model.entity_position import EntityPosition
+
+    n = sb.__class__.__name__
+    try:
+        if n == "ServicingTrip":
+            return tuple(rn.route(sb.request.position, sb.request.destination_position))
+        if n == "DispatchStation" and sim is not None and sb.station_id in sim.stations:
+            return tuple(rn.route(a.position, sim.stations[sb.station_id].position))
+        if n == "DispatchBase" and sim is not None and sb.base_id in sim.bases:
+            return tuple(rn.route(a.position, sim.bases[sb.base_id].position))
+        if n == "DispatchTrip" and sim is not None and sb.request_id in sim.requests:
+            return tuple(rn.route(a.position, sim.requests[sb.request_id].position))
+        if n == "Repositioning" and len(sb.route) > 0:
+            return tuple(rn.route(a.position, EntityPosition(sb.route[-1].link_id, sb.route[-1].end)))
+    except Exception:
+        return None
+    return None
+
+
 def c06_vehicle_step(rn, a, b, move_events, step_s: float) -> List[Tuple[str, tuple, str]]:
     """a, b: the vehicle before / after one step in which no instruction changed its activity.
     returns [(clause, discriminators, message)]"""
@@ -1127,9 +1149,19 @@ def c06_vehicle_step(rn, a, b, move_events, step_s: float) -> List[Tuple[str, tu
             # an activity may only be left on arrival (or by instruction, which the caller filtered out)
             out.append(("left_before_arrival", (na, nb), f"vehicle {vid} left {na} with {len(R)} links remaining"))
         if nb in TRAVEL and hasattr(sb, "route"):
-            vmax = net_vmax(rn)
-            if _gc_km(a.geoid, b.geoid) > vmax * step_s / 3600.0 + 0.002:
-                out.append(("too_fast", (na + ">" + nb,), f"vehicle {vid} covered {_gc_km(a.geoid, b.geoid):.4f} km in {step_s} s at most {vmax} km/h"))
+            # the new activity moved along a new route in this very step (pickup step): rebuild that route as it was
+            # when the activity was entered and judge the step against it
+            full = initial_route(rn, a, sb, None)
+            if full is None:
+                vmax = net_vmax(rn)
+                if _gc_km(a.geoid, b.geoid) > vmax * (step_s + 1.0) / 3600.0 + 0.002:
+                    out.append(("too_fast", (na + ">" + nb,), f"vehicle {vid} covered {_gc_km(a.geoid, b.geoid):.4f} km in {step_s} s at most {vmax} km/h"))
+            elif len(full) == 0:
+                if moved:
+                    out.append(("moved_with_empty_route", (nb,), f"vehicle {vid} entered {nb} with nothing to drive and moved"))
+            else:
+                a2 = a.modify_vehicle_state(sb.update_route(full))
+                out += [(c, d + ("entered_this_step",), m) for c, d, m in c06_vehicle_step(rn, a2, b, move_events, step_s)]
         elif moved:
             out.append(("moved_after_arrival", (na, nb), f"vehicle {vid} moved while leaving {na}"))
         return out
@@ -1220,9 +1252,18 @@ def c06_transition(ctx: Ctx) -> List[Violation]:
         if vid in instructed and (type(sa) is not type(sb) or getattr(sa, "instance_id", 0) != getattr(sb, "instance_id", 0)):
             # a new activity was entered by instruction; its initial route is not in the pre-state: speed bound only
             ctx.cov["c06:instructed_this_step"] += 1
-            vmax = net_vmax(rn)
-            if _gc_km(a.geoid, b.geoid) > vmax * step_s / 3600.0 + 0.002:
-                out.append(Violation("C06", "too_fast", ("after_instruction",), f"vehicle {vid} covered {_gc_km(a.geoid, b.geoid):.4f} km in one {step_s} s step"))
+            full = initial_route(rn, a, sb, ctx.post) if hasattr(sb, "route") else ()
+            if full is None:
+                vmax = net_vmax(rn)
+                if _gc_km(a.geoid, b.geoid) > vmax * (step_s + 1.0) / 3600.0 + 0.002:
+                    out.append(Violation("C06", "too_fast", ("after_instruction",), f"vehicle {vid} covered {_gc_km(a.geoid, b.geoid):.4f} km in one {step_s} s step"))
+            elif len(full) == 0 or not hasattr(sb, "route"):
+                if b.geoid != a.geoid:
+                    out.append(Violation("C06", "moved_with_empty_route", (sname(b), "after_instruction"), f"vehicle {vid} entered {sname(b)} with nothing to drive and moved"))
+            else:
+                a2 = a.modify_vehicle_state(sb.update_route(full))
+                for clause, disc, msg in c06_vehicle_step(rn, a2, b, moves.get(vid, []), step_s):
+                    out.append(Violation("C06", clause, disc + ("after_instruction",), msg))
             continue
         if sname(a) in TRAVEL:
             ctx.cov[f"c06:judged:{sname(a)}"] += 1
